@@ -12,6 +12,12 @@ class Obj:
         return 'Obj(%s)' % ', '.join('%s=%r' % kv for kv in sorted(vars(self).items(), key=lambda kv: str(kv[0])))
 
 
+class CObj(Obj):
+    """callable attribute object ("cobj" cells)"""
+    def __call__(self, *a, **kw):
+        return 'called'
+
+
 class LogDict(dict):
     def __getitem__(self, k):
         ACCESS_LOG.append(id(self))
@@ -44,7 +50,7 @@ class LogObj(Obj):
 
 
 PLAIN = {'dict': dict, 'odict': OrderedDict, 'list': list, 'tuple': tuple, 'set': set,
-         'frozenset': frozenset, 'obj': Obj}
+         'frozenset': frozenset, 'obj': Obj, 'cobj': CObj}
 LOGGING = dict(PLAIN, dict=LogDict, odict=LogODict, list=LogList, tuple=LogTuple, obj=LogObj)
 
 from glom import SKIP, STOP
